@@ -151,10 +151,25 @@ def r_add_pair(ctx):
             ins_d = [e for e in p.events if e.kind == "call" and e.d["fn"] == HM + "insert" and unmut(e.d["args"][0]) == self_field(roles["data"])]
             ins_s = [e for e in p.events if e.kind == "call" and e.d["fn"] == HS + "insert"]
             rm = [e for e in p.events if e.kind == "call" and e.d["fn"] in rem]
-            one = len(ins_t) == 1 and len(ins_d) == 1 and len(ins_s) == 1
-            obs.append(Ob("R-ADD-PAIR", fn, "exactly one insert into each of the three maps", one, "id map: %d, bytes map: %d, id sets: %d" % (len(ins_t), len(ins_d), len(ins_s)), rel(f["loc"])))
+            # the id set's registration without the entry API: `get_mut(h)` is Some ⇒ insert into that set; None ⇒ a new set holding exactly this id
+            new_set = [e for e in p.events if e.kind == "call" and e.d["fn"] == HM + "insert" and unmut(e.d["args"][0]) == self_field(roles["ids"])]
+            one = len(ins_t) == 1 and len(ins_d) == 1 and len(ins_s) + len(new_set) == 1
+            obs.append(Ob("R-ADD-PAIR", fn, "exactly one insert into each of the three maps", one, "id map: %d, bytes map: %d, id sets: %d" % (len(ins_t), len(ins_d), len(ins_s) + len(new_set)), rel(f["loc"])))
             if not one:
                 continue
+            if new_set:
+                h_ = unmut(ins_d[0].d["args"][1])
+                ns = new_set[0]
+                val = unmut(ns.d["args"][2])
+                probe = ("call", HM + "get_mut", (self_field(roles["ids"]), h_), None)
+                absent = any(fct[0] == "variant" and fct[2] == "core::option::Option::None" and fct[3] is True and is_call_to(unmut(fct[1]), lambda s_: s_ in (HM + "get_mut", HM + "get", HM + "contains_key")) and
+                             tuple(unmut(x_) for x_ in unmut(fct[1])[2]) == probe[2] for fct, _d in path_facts(p, ns.seq)) or \
+                    any(fct[0] == "bool" and fct[2] is False and is_call_to(unmut(fct[1]), lambda s_: s_ == HM + "contains_key") and tuple(unmut(x_) for x_ in unmut(fct[1])[2]) == probe[2]
+                        for fct, _d in path_facts(p, ns.seq))
+                single = is_call_to(val, lambda s_: s_.endswith("From::from")) and val[2] and unmut(val[2][0]) == ("arr", (tid,))
+                ok_ns = unmut(ns.d["args"][1]) == h_ and absent and single
+                obs.append(Ob("R-ADD-PAIR", fn, "id set of that hash gains tile_id", ok_ns, "no set under this hash on this path: %s; new set = %s" % (absent, tstr(val)[:80]), ns.loc()))
+                ins_s = [ns]
             h = unmut(ins_d[0].d["args"][1])
             content = unmut(ins_d[0].d["args"][2])
             ok_h = is_call_to(h, lambda s: s in hf) and h[2] and h[2][0] == content
@@ -162,9 +177,10 @@ def r_add_pair(ctx):
             tv = unmut(ins_t[0].d["args"][2])
             ok_t = unmut(ins_t[0].d["args"][1]) == tid and is_call_to(tv, lambda s: s == HASH_CTOR) and tv[2][0] == h
             obs.append(Ob("R-ADD-PAIR", fn, "id map: tile_id ↦ Hash(that hash)", ok_t, "id map insert(%s, %s)" % (tstr(unmut(ins_t[0].d["args"][1]))[:40], tstr(tv)[:80]), ins_t[0].loc()))
-            sset = unmut(ins_s[0].d["args"][0])
-            ok_s = unmut(ins_s[0].d["args"][1]) == tid and any(is_call_to(t, lambda s: s == HM + "entry") and t[2][0] == self_field(roles["ids"]) and t[2][1] == h for t in subterms(sset))
-            obs.append(Ob("R-ADD-PAIR", fn, "id set of that hash gains tile_id", ok_s, "set = %s" % tstr(sset)[:120], ins_s[0].loc()))
+            if not new_set:
+                sset = unmut(ins_s[0].d["args"][0])
+                ok_s = unmut(ins_s[0].d["args"][1]) == tid and any(is_call_to(t, lambda s: s in (HM + "entry", HM + "get_mut")) and unmut(t[2][0]) == self_field(roles["ids"]) and unmut(t[2][1]) == h for t in subterms(sset))
+                obs.append(Ob("R-ADD-PAIR", fn, "id set of that hash gains tile_id", ok_s, "set = %s" % tstr(sset)[:120], ins_s[0].loc()))
             first_ins = min(ins_t[0].seq, ins_d[0].seq, ins_s[0].seq)
             entry_calls = [e for e in p.events if e.kind == "call" and e.d["fn"] in (HM + "entry", HM + "get_mut") and unmut(e.d["args"][0]) == self_field(roles["ids"])]
             if entry_calls:
@@ -285,7 +301,20 @@ def r_lookup(ctx):
             ok = False
             if is_call_to(v, lambda s: s == "core::result::Result::Ok") and v[2]:
                 inner = v[2][0]
-                ok = is_call_to(inner, lambda s: s.endswith("::cloned")) and is_call_to(inner[2][0], lambda s: s == HM + "get") and inner[2][0][2][1] == h and inner[2][0][2][0] in [V("param:" + n_) for n_, prm_ in zip(fa.param_names, f["params"]) if "HashMap<" in (prm_["ty"] or "")]
+                maps_ = [V("param:" + n_) for n_, prm_ in zip(fa.param_names, f["params"]) if "HashMap<" in (prm_["ty"] or "")]
+                def is_probe(g):
+                    g = unmut(g)
+                    return is_call_to(g, lambda s: s == HM + "get") and unmut(g[2][1]) == h and unmut(g[2][0]) in maps_
+                ok = is_call_to(inner, lambda s: s.endswith("::cloned")) and is_probe(inner[2][0])
+                if not ok:
+                    # the same result spelled out: the probe is inspected, `None` is passed on, `Some(bytes)` is cloned
+                    probes = [unmut(fct[1]) for fct, _d in path_facts(p) if fct[0] == "variant" and is_probe(fct[1])]
+                    if is_call_to(inner, lambda s: s == "core::option::Option::None"):
+                        ok = any(knows(p, ("variant", g, "core::option::Option::None", True)) is not None for g in probes)
+                    elif is_call_to(inner, lambda s: s == "core::option::Option::Some") and inner[2]:
+                        c = unmut(inner[2][0])
+                        ok = is_call_to(c, lambda s: s.endswith(("Clone::clone", "::to_vec", "::to_owned"))) and c[2] and is_probe(c[2][0]) and \
+                            knows(p, ("variant", unmut(c[2][0]), "core::option::Option::Some", True)) is not None
             reads = [e for e in p.events if e.kind == "call" and e.d["effects"]]
             obs.append(Ob("R-LOOKUP", fn, "hash-backed tile ⇒ clone of the bytes stored under its hash, no stream access", ok and not reads, "returns %s" % tstr(v)[:120], rel(f["loc"])))
         if n == 0:
@@ -297,7 +326,8 @@ def r_lookup(ctx):
 # finish
 
 def finishers(ctx):
-    return [f for f in ctx.user_fns() if ctx.has_struct(f, "tile_manager::FinishResult")]
+    """the layout function: builds the FinishResult, itself or through helpers evaluated in place"""
+    return [f for f in ctx.user_fns() if f["path"] not in ctx.inlinable and ctx.has_struct_inl(f, "tile_manager::FinishResult")]
 
 
 def rle_fns(ctx):
@@ -315,6 +345,34 @@ def _pair_fields(ctx, f_off, f_len, adt=None):
         if set(fl) == {f_off, f_len} and fl[f_off] == "u64" and fl[f_len] == "u32":
             return True
     return False
+
+
+def _pair_struct_of(ctx, ty):
+    """(offset field, length field) of a local two-field struct with one u64 and one u32 field that `ty` names; None otherwise"""
+    t = (ty or "").replace("&", "").replace("mut ", "").strip()
+    a = ctx.facts.adts.get(t)
+    if a is None or a.get("kind") != "struct" or len(a["variants"]) != 1:
+        return None
+    fl = a["variants"][0]["fields"]
+    if len(fl) == 2 and sorted(x["ty"] for x in fl) == ["u32", "u64"]:
+        return next(x["name"] for x in fl if x["ty"] == "u64"), next(x["name"] for x in fl if x["ty"] == "u32")
+    return None
+
+
+def _expand_pair_arg(ctx, args, tys):
+    """the entry-pushing helper called with (entries, id, pair) where `pair` is a local (u64 offset, u32 length) struct: expanded to
+    (entries, id, offset, length) — the fields of the literal when it is one, field reads of the value otherwise"""
+    args = list(args)
+    if len(args) == 3 and len(tys) == 3:
+        pf = _pair_struct_of(ctx, tys[2])
+        if pf is not None:
+            v = args[2]
+            while isinstance(v, tuple) and v and (v[0] == "mut" or (v[0] == "un" and v[1] == "*")):
+                v = v[1] if v[0] == "mut" else v[2]
+            if isinstance(v, tuple) and v and v[0] == "struct":
+                return args[:2] + [struct_field(v, pf[0]), struct_field(v, pf[1])]
+            return args[:2] + [("f", v, pf[0]), ("f", v, pf[1])]
+    return args
 
 
 def r_finish_pair(ctx):
@@ -337,7 +395,11 @@ def r_finish_pair(ctx):
             appends = [e for e in p.events if e.kind == "call" and e.d["fn"].endswith("Vec::<T, A>::append") or (e.kind == "call" and e.d["fn"].endswith("::extend_from_slice")) or (e.kind == "call" and e.d["fn"].endswith("Vec::<T, A>::extend"))]
             gets = []
             seen_probe = set()
+            _adt, _roles = store_adt(ctx)
+            store_maps = [self_field(n_) for n_ in (_roles or {}).values()]
             for fct, d in path_facts(p):
+                if fct[0] == "variant" and is_call_to(fct[1], lambda s: s == HM + "get") and unmut(unmut(fct[1])[2][0]) in store_maps:
+                    continue      # fetching an in-memory tile's bytes from the store itself is not the layout's dedup probe
                 if fct[0] == "variant" and fct[2] == "core::option::Option::Some" and is_call_to(fct[1], lambda s: s == HM + "get") and d.loops and id(d) not in seen_probe:
                     seen_probe.add(id(d))
                     gets.append((d, fct[3]))
@@ -361,7 +423,8 @@ def r_finish_pair(ctx):
             arms.add("hit" if hit else "miss")
             probe = unmut(gets[0].d["cond"])
             hmap, hkey = probe[2][0], probe[2][1]
-            a = [unmut(x) for x in pu.d["args"]]
+            pargs = _expand_pair_arg(ctx, pu.d["args"], pu.d.get("tys") or [])
+            a = [unmut(x) for x in pargs]
             tid = a[1] if len(a) == 4 else None
             # tile id comes from the sorted iteration element
             ok_tid = tid is not None and tid[0] == "proj" and tid[2] == 0 and tid[1][0] == "elem"
@@ -369,6 +432,14 @@ def r_finish_pair(ctx):
             fetch = [e for e in p.events if e.kind == "call" and e.d["fn"] in lfn]
             content = unmut(fetch[0].d["ret"]) if fetch else None
             tile = tid[1] if ok_tid else None
+            if content is None and tile is not None and _roles:
+                # an in-memory tile borrowed straight from the store: the bytes kept under this very tile's stored hash (what the fetcher would clone)
+                want_ = ("call", HM + "get", (self_field(_roles["data"]), ("proj", ("proj", tile, 1), "TileManagerTile::Hash.0")), None)
+                for fct, _d in path_facts(p, pu.seq):
+                    g_ = unmut(fct[1]) if fct[0] == "variant" else None
+                    if g_ is not None and fct[2] == "core::option::Option::Some" and fct[3] is True and is_call_to(g_, lambda s_: s_ == HM + "get") and \
+                            (g_[1], tuple(unmut(x_) for x_ in g_[2])) == (want_[1], want_[2]) and knows(p, ("variant", ("proj", tile, 1), HASH_CTOR, True), pu.seq) is not None:
+                        content = g_
             ok_hash = False
             if tile is not None:
                 tval = ("proj", tile, 1)
@@ -405,8 +476,8 @@ def r_finish_pair(ctx):
                     src = unmut(ap.d["args"][1])
                     off, ln = a[2], a[3]
                     want_off = ("cast", "u64", ("call", "len", (buf_before,), None), "usize")
-                    ok_off = pu.d["args"][2] == want_off or (unmut(pu.d["args"][2]) == unmut(want_off) and _len_taken_before(p, pu.d["args"][2], ap))
-                    obs.append(Ob("R-FINISH-PAIR", fn, "miss: offset = length of the data buffer before the append", bool(ok_off), "offset = %s" % tstr(pu.d["args"][2])[:100], pu.loc()))
+                    ok_off = pargs[2] == want_off or (unmut(pargs[2]) == unmut(want_off) and _len_taken_before(p, pargs[2], ap))
+                    obs.append(Ob("R-FINISH-PAIR", fn, "miss: offset = length of the data buffer before the append", bool(ok_off), "offset = %s" % tstr(pargs[2])[:100], pu.loc()))
                     ok_len = isinstance(ln, tuple) and ln[0] == "cast" and unmut(ln[2]) == ("call", "len", (src,), None) and src == content
                     obs.append(Ob("R-FINISH-PAIR", fn, "miss: length = length of the appended content = the tile's bytes", ok_len, "length = %s; appended %s" % (tstr(ln)[:80], tstr(src)[:60]), pu.loc()))
                     mi = [unmut(x) for x in mins[0].d["args"]]
@@ -426,7 +497,7 @@ def r_finish_pair(ctx):
                 fr_ = v_[2][0] if is_call_to(v_, lambda s: s == "core::result::Result::Ok") and v_[2] else None
                 ntc_ = struct_field(fr_, "num_tile_content") if fr_ is not None and fr_[0] == "struct" else None
                 derived = _is_len_of(ntc_, hmap)
-                two = len(incs) == 2 and len(addr_inc) == 2 and len(set(e.d["var"] for e in incs)) == 2
+                two = len(incs) == 2 and len(addr_inc) == 2 and len(set(_ctr_key(e) for e in incs)) == 2
                 one_plus_len = len(incs) == 1 and len(addr_inc) == 1 and derived
                 obs.append(Ob("R-COUNTERS", fn, "miss: the addressed-tiles counter and the content count both advance by one", two or one_plus_len,
                               "increments: %d; num_tile_content derived from the dedup table's size: %s" % (len(incs), derived), pu.loc()))
@@ -441,13 +512,18 @@ def r_finish_pair(ctx):
             ok_dir = any(_same_root(t, ents) for t in subterms(dirt))
             obs.append(Ob("R-COUNTERS", fn, "directory = the entries built in the loop", ok_dir, "directory = %s" % tstr(dirt)[:80], rel(f["loc"])))
             nte = struct_field(fr, "num_tile_entries")
-            ok_nte = isinstance(nte, tuple) and nte[0] == "cast" and is_call_to(nte[2], lambda s: s == "len") and _same_root(nte[2][2][0], ents)
+            ok_nte = isinstance(nte, tuple) and nte[0] == "cast" and is_call_to(nte[2], lambda s: s == "len") and \
+                (_same_root(nte[2][2][0], ents) or (unmut(nte[2][2][0])[0] == "f" and _same_root(unmut(nte[2][2][0])[1], ents)))      # (… or the entry vector held by the struct the merge works on)
             obs.append(Ob("R-COUNTERS", fn, "num_tile_entries = entries.len() after the loop", ok_nte and not _in_loop_len(p, fa, nte), "num_tile_entries = %s" % tstr(nte)[:80], rel(f["loc"])))
             # counters: addressed = the variable that moved on this path in both arms; content = the one that moves only on miss
-            moved = {e.d["var"]: unmut(e.d["value"]) for e in incs}
+            moved = {_ctr_key(e): unmut(e.d["value"]) for e in incs}
+            # (a counter kept in a field of a local struct: reading that field after the loop yields what the only increment on this path stored)
+            by_place_ = {unmut(e.d["place"]): unmut(e.d["value"]) for e in incs if e.d.get("place") is not None}
             if hit and len(moved) == 1:
                 (var, val), = moved.items()
-                obs.append(Ob("R-COUNTERS", fn, "num_addressed_tiles = counter incremented once per entry push", struct_field(fr, "num_addressed_tiles") == val, "num_addressed_tiles = %s" % tstr(struct_field(fr, "num_addressed_tiles"))[:80], rel(f["loc"])))
+                na_ = struct_field(fr, "num_addressed_tiles")
+                na_ = by_place_.get(unmut(na_), na_) if na_ is not None else na_
+                obs.append(Ob("R-COUNTERS", fn, "num_addressed_tiles = counter incremented once per entry push", na_ == val, "num_addressed_tiles = %s" % tstr(struct_field(fr, "num_addressed_tiles"))[:80], rel(f["loc"])))
                 ntc = struct_field(fr, "num_tile_content")
                 ok_c = (isinstance(ntc, tuple) and ntc[0] == "v" and ntc != val[2]) or (_is_len_of(ntc, hmap) and not mins) or \
                     (isinstance(ntc, tuple) and ntc[0] == "f" and ntc != val[2] and not any(e.d.get("place") is not None and unmut(e.d["place"])[0] == "f" and unmut(e.d["place"])[2] == ntc[2] for e in incs))
@@ -486,6 +562,11 @@ def _is_len_of(t, container):
     while isinstance(t, tuple) and t and t[0] == "cast":
         t = t[2]
     return isinstance(t, tuple) and t and t[0] == "call" and t[1] == "len" and unmut(t[2][0]) == unmut(container)
+
+
+def _ctr_key(e):
+    """identity of an incremented counter: the variable, or the field place for a counter kept in a struct"""
+    return (e.d["var"], unmut(e.d["place"]) if e.d.get("place") is not None else None)
 
 
 def _same_root(a, b):
@@ -602,6 +683,17 @@ def r_order(ctx):
                     it = e.d["iter"]
                     srcs = _hash_iter_sources_resolved(p, unmut(it))
                     if not srcs:
+                        filled = _filled_from_hash(ctx, p, e, it)
+                        if filled is None:
+                            continue
+                        # the vector was filled element by element in a loop over the map: the sort must come after the last push
+                        n += 1
+                        base, last_push = filled
+                        sorts = [s for s in p.events if s.kind == "call" and last_push.seq < s.seq < e.seq and (s.d["fn"] in SORTS_BY or s.d["fn"] in SORTS_KEY) and _vec_base(s.d["args"][0]) == base]
+                        ok, why = (False, "no sort of the iterated vector between its last push and the loop")
+                        if sorts:
+                            ok, why = _asc_by_id(sorts[-1], ctx)
+                        obs.append(Ob("R-ORDER", fn, "hash-map contents are sorted ascending by tile id before the layout loop", ok, why, e.loc()))
                         continue
                     n += 1
                     # a sort of this very vector precedes the loop
@@ -610,7 +702,7 @@ def r_order(ctx):
                     why = "no sort of the iterated vector before the loop"
                     if sorts:
                         s = sorts[-1]
-                        ok, why = _asc_by_id(s)
+                        ok, why = _asc_by_id(s, ctx)
                     obs.append(Ob("R-ORDER", fn, "hash-map contents are sorted ascending by tile id before the layout loop", ok, why, e.loc()))
         if n == 0:
             obs.append(Ob("R-ORDER", fn, "layout loop over the id map", False, "no loop over the id map's contents found", rel(f["loc"])))
@@ -630,6 +722,36 @@ def r_order(ctx):
     return obs
 
 
+def _vec_base(t):
+    t = unmut(t)
+    while True:
+        if isinstance(t, tuple) and t and t[0] == "mut":
+            t = t[1]
+        elif is_call_to(t, lambda s_: s_.endswith(("::into_iter", "::iter", "::iter_mut", "::drain"))) and t[2]:
+            t = unmut(t[2][0])
+        else:
+            return t
+
+
+def _filled_from_hash(ctx, p, loop_ev, it):
+    """the iterated vector received its elements by `push` inside an earlier loop that walks a hash container (by iterator call or directly, a field
+    of the store whose type is a hash map): returns (vector, last such push)"""
+    base = _vec_base(it)
+    adt, roles = store_adt(ctx)
+    hash_fields = [self_field(n_) for n_ in (roles or {}).values()]
+    last = None
+    for x in p.events:
+        if not (x.kind == "call" and x.seq < loop_ev.seq and x.d["fn"].endswith("Vec::<T, A>::push") and x.loops and _vec_base(x.d["args"][0]) == base):
+            continue
+        enter = [l for l in p.events if l.kind == "loop" and l.d["what"] == "enter" and l.d.get("lid") == x.loops[-1]]
+        if not enter or enter[0].d.get("iter") is None:
+            continue
+        src = unmut(enter[0].d["iter"])
+        if _hash_iter_sources_resolved(p, src) or _vec_base(src) in hash_fields:
+            last = x
+    return (base, last) if last is not None else None
+
+
 def _hash_iter_sources_resolved(p, it):
     out = []
     for s in subterms(it):
@@ -643,8 +765,23 @@ def _hash_iter_sources_resolved(p, it):
     return out
 
 
-def _asc_by_id(s):
+def _asc_by_id(s, ctx=None):
     clos = unmut(s.d["args"][1]) if len(s.d["args"]) > 1 else None
+    if ctx is not None and isinstance(clos, tuple) and clos and clos[0] == "call" and not clos[2]:
+        # a comparator / key function given by name: a local function with one path whose value is judged like a closure body
+        g = next((f_ for f_ in ctx.user_fns() if f_["path"] == clos[1]), None)
+        if g is not None:
+            ga = ctx.fa(g)
+            if len(ga.paths) == 1 and not [e for e in ga.paths[0].events if e.kind == "call" and e.d["effects"]]:
+                body = unmut(ga.paths[0].value)
+                ps = [V("param:" + n_) for n_ in ga.param_names]
+                if s.d["fn"] in SORTS_BY and len(ps) == 2:
+                    ok = is_call_to(body, lambda x: x.endswith("::cmp") or x.endswith("::partial_cmp")) and len(body[2]) == 2 and \
+                        unmut(body[2][0]) == ("f", ps[0], "0") and unmut(body[2][1]) == ("f", ps[1], "0")
+                    return bool(ok), "comparator %s = %s" % (clos[1], tstr(body)[:80])
+                if s.d["fn"] in SORTS_KEY and len(ps) == 1:
+                    ok = body == ("f", ps[0], "0") or body == ("proj", ps[0], 0) or body == ("un", "*", ("f", ps[0], "0"))
+                    return bool(ok), "key %s = %s" % (clos[1], tstr(body)[:80])
     if not (isinstance(clos, tuple) and clos[0] == "clos" and clos[2]):
         return False, "sort comparator is not a closure literal"
     body = clos[2][0]
@@ -837,6 +974,25 @@ def r_listing(ctx):
         if "TileManager" not in (f.get("self_ty") or ""):
             continue
         fa = ctx.fa(f)
+        if "Vec<&u64>" in f["ret"] and len(fa.paths) > 1:
+            # the listing written as a loop: a fresh vector that receives every key of the id map, unconditionally
+            found["list"] += 1
+            ok, entered = True, False
+            for p in fa.paths:
+                base = _vec_base(p.value)
+                ok = ok and p.exit not in ("err", "panic") and is_call_to(base, lambda s: s.endswith(("Vec::<T>::new", "Vec::<T>::with_capacity"))) and \
+                    not any(d.d["how"] == "if" and d.loops for d in p.decisions())
+                for e in p.events:
+                    if e.kind == "loop" and e.d["what"] == "enter":
+                        entered = True
+                        it = unmut(e.d.get("iter")) if e.d.get("iter") is not None else None
+                        ok = ok and is_call_to(it, lambda s: s == HM + "keys") and unmut(it[2][0]) == idmap
+                        pu = [x for x in p.events if x.kind == "call" and x.d["fn"].endswith("Vec::<T, A>::push") and x.loops and x.loops[-1] == e.d["lid"]]
+                        ok = ok and len(pu) == 1 and _vec_base(pu[0].d["args"][0]) == base and unmut(pu[0].d["args"][1]) == ("elem", it, e.d["lid"])
+                    elif e.kind == "call" and e.d["fn"].endswith("Vec::<T, A>::push") and not e.loops:
+                        ok = False
+            obs.append(Ob("R-LISTING", f["path"], "listing = keys of the id map", ok and entered, "a loop pushing into %s" % tstr(_vec_base(fa.paths[0].value))[:60], rel(f["loc"])))
+            continue
         if len(fa.paths) != 1:
             continue
         v = unmut(fa.paths[0].value)
